@@ -41,6 +41,7 @@ type image struct {
 	data     []byte
 	heavy    bool // large image: sample selectors instead of trying all
 	pristine bool
+	synth    bool // built by synth.go
 }
 
 type visited struct {
